@@ -211,6 +211,13 @@ def roundtrip_case(ctx, case, label, kind, cls, v, d, rng, ws, ask, dtasks, fsx,
     dtasks.CTL = {'value': v}
     dtasks.RUNS.clear()
     t1 = dtasks.make_task(kind, d, cls)
+    if kind == 'dirData' and rng.random() < 0.5:
+        # the work directory of an earlier run of this task that was killed (no exception handling ran): what it wrote there is not part
+        # of the value this run returns
+        left = dtasks.role_paths(kind, d, t1)['tmp']
+        left.mkdir(parents=True, exist_ok=True)
+        (left / 'shard-of-a-dead-run.bin').write_bytes(b'partial')
+        ctx.count('dir:leftover-work-directory')
     try:
         v1 = plain(kind, t1.value)
     except Exception as e:  # noqa
